@@ -6,7 +6,7 @@ import vlib, codec, gen, bufrmsg
 DSEQS = [301001, 301011, 301012, 301013, 301021, 301023, 301031, 301032]
 
 
-def gen_cases(ctx, rng, n, comp_mode=False, max_depth=2, ops=True, diff_structure_frac=0.0, allow_single=False, allow203=False):
+def gen_cases(ctx, rng, n, comp_mode=False, max_depth=2, ops=True, diff_structure_frac=0.0, allow_single=False, allow203=False, allow203in204=False):
     """-> list of dict(ed, tmpl, subsets, same) ; comp_mode: >= 2 subsets with the same structure (compressible)"""
     cases, rejected = [], collections.Counter()
     dseqs = [d for d in DSEQS if d in ctx.T.D]
@@ -16,6 +16,7 @@ def gen_cases(ctx, rng, n, comp_mode=False, max_depth=2, ops=True, diff_structur
         ed = rng.choice([2, 3, 4, 4])
         tg = gen.TGen(rng, ctx.T, ed, ops=ops, max_depth=max_depth, dseqs=dseqs)
         tg.allow203 = allow203      # 2 03 YYY only where the library decodes (its API encode path is a known finding of C09)
+        tg.allow203in204 = allow203in204
         tmpl = tg.template()
         if comp_mode:
             nsub = rng.choice([1, 2, 2, 3, 4, 7]) if allow_single else rng.choice([2, 2, 3, 4, 7])
